@@ -14,7 +14,7 @@ RULE = ('programs x sequences of K<=2 (thorough: sampled K=3,4) requests from {p
 ASSUMPTIONS = ['programs depend only on their arguments (deterministic)', 'expected trace comes from an independent interpreter of the program text, '
                'cross-checked against the uninterrupted run of the real code']
 REQUIRED = ['calls_on_terminated', 'step_entries', 'pause_live', 'play_while_paused', 'pause_phase/running-step', 'pause_phase/waiting-step', 'pause_phase/between-steps-or-unstarted',
-            'trace_compared']
+            'trace_compared', 'outline_runs', 'outline_pause_live', 'outline_play_while_paused', 'outline_pause_mid_run']
 ALPHABET = [['pause', 'p'], ['pause', None], ['play'], ['resume', ['v']], ['resume', None]]
 BOUNDS = {'quick': 'basic program family, K<=2 exhaustive, K=3 exhaustive over {pause,play}', 'thorough': 'K=3 exhaustive on 4 key programs, + 40 random programs, K=3/4 sampled, listener-issued pause/play'}
 
@@ -27,6 +27,8 @@ DEEP = ('wait_async', 'cont_async', 'out_async', 'wait2')  # thorough: K=3 exhau
 
 
 def gen_cases(tier, seed):
+    for case in gen_outline_cases(tier, seed):
+        yield case
     progs = {k: v for k, v in programs.basic_programs().items()}
     rng = plans.rng_for(seed, 'c05')
     for n in range(40 if tier == 'thorough' else 6):
@@ -67,7 +69,118 @@ def gen_cases(tier, seed):
                               'barrage': True, 'barrage_skip': ['fail', 'soon_raise', 'cancel_future'], 'listener': True, 'no_trace': True}
 
 
+# -- outline WorkChains ----------------------------------------------------------------------------
+OUTLINES = [
+    [['step', 's0'], ['if', [['p0', [['step', 's1'], ['step', 's2']]], ['p1', [['step', 's3']]]], [['step', 's4']]], ['while', 'p2', [['step', 's5']]], ['step', 's6']],
+    [['while', 'p0', [['if', [['p1', [['step', 's0']]]], None], ['step', 's1']]], ['ret', 3]],
+    [['step', 's0'], ['step', 's1'], ['step', 's2']],
+]
+OUTLINE_SCRIPTS = [([True, False, True, False], []), ([False, True, True, True, False], []), ([False, False, True, False], [None, None, 7])]
+_OUTLINE_CLS = {}
+
+
+class _OutlineCalls:
+    """Every step / predicate call of the outline is recorded with the paused flag (as a 'trace enter' event)."""
+
+    def _call(self, kind, name):
+        n = len(self.ctx.get('tr', []))
+        self._rec.ev('trace', 'enter', n, self.paused, self.status, name)
+        self.set_status('S%d' % n)
+        self._rec.fire('step', self, n)  # plan entries ['step', n]: requests made from inside this call
+        return super()._call(kind, name)
+
+
+def _outline_class(ast_):
+    from pv import generated, outlines
+    key = repr(ast_)
+    if key not in _OUTLINE_CLS:
+        base = outlines.outline_class(ast_)
+        cls = type('C05' + base.__name__, (_OutlineCalls, base), {})
+        generated.register(cls)
+        _OUTLINE_CLS[key] = cls
+    return _OUTLINE_CLS[key]
+
+
+class OutlineRun(lifecycle.Run):
+    def _make_class(self):
+        return _outline_class(self.case['ast'])
+
+    def _construct(self, cls, loop):
+        return cls(inputs={'preds': list(self.case['preds']), 'rets': list(self.case['rets'])}, loop=loop)
+
+    def _collect_extra(self):
+        return {'tr': list(self.proc.ctx.get('tr', []))}
+
+
+def gen_outline_cases(tier, seed):
+    from pv import outlines
+    rng = plans.rng_for(seed, 'c05o')
+    combos = [(oi, si) for oi in range(len(OUTLINES)) for si in range(len(OUTLINE_SCRIPTS))]
+    for oi, si in combos:
+        ast_, (preds, rets) = OUTLINES[oi], OUTLINE_SCRIPTS[si]
+        base = {'outline': True, 'name': 'outline%d/script%d' % (oi, si), 'ast': ast_, 'preds': preds, 'rets': rets, 'program': {'steps': []},
+                'drain': True, 'probe': False, 'barrage': False, 'listener': True}
+        n = OutlineRun(dict(base, plan=[])).execute().record()['slots'] + 1
+        alphabet = [['pause', 'p'], ['pause', None], ['play']]
+        plist = [[]] + list(plans.all_placements(n, alphabet, 1)) + list(plans.all_placements(n, [['pause', 'p'], ['play']], 2))
+        if tier == 'thorough':
+            plist += list(plans.sampled_placements(rng, n, alphabet, 3, 3000))
+        else:
+            plist += list(plans.sampled_placements(rng, n, alphabet, 3, 150))
+        # the steps of an outline are synchronous, a whole block runs within one loop callback: requests that arrive in the middle
+        # come from the step / predicate functions themselves or from listeners notified of the transitions in between
+        ncalls = len(outlines.interpret(ast_, preds, rets)[0])
+        for i in range(ncalls):
+            for first in (['pause', 'p'], ['pause', None]):
+                plist.append([{'at': ['step', i], 'act': first}])
+                plist.append([{'at': ['step', i], 'act': first}, {'at': ['listener', 'paused', 1], 'act': ['play']}])
+                plist.append([{'at': ['step', i], 'act': first}, {'at': ['step', i], 'act': ['play']}])
+                for j in range(i + 1, min(ncalls, i + 3)):
+                    plist.append([{'at': ['step', i], 'act': first}, {'at': 'q', 'act': ['play']}, {'at': ['step', j], 'act': ['pause', 'again']}])
+        for k in range(1, ncalls + 2):
+            plist.append([{'at': ['listener', 'running', k], 'act': ['pause', 'lp']}])
+            plist.append([{'at': ['listener', 'running', k], 'act': ['pause', 'lp']}, {'at': ['listener', 'paused', 1], 'act': ['play']}])
+            plist.append([{'at': 0, 'act': ['pause', 'p0']}, {'at': 'q', 'act': ['play']}, {'at': ['listener', 'running', k], 'act': ['pause', 'lp']}])
+        for i, plan in enumerate(plist):
+            yield dict(base, plan=plans.uniq(plan, 'o%d' % i))
+
+
+def run_outline_case(case):
+    from pv import outlines
+    V = judges.V
+    rec = OutlineRun(dict(case)).execute().record()
+    viol = judges.judge_c05(rec, check_trace=False)
+    exp_trace, exp_result, how = outlines.interpret(case['ast'], case['preds'], case['rets'])
+    fin = rec['final']
+    got = rec['extra']['tr']
+    pat = '>'.join(judges.act_pattern(rec, plan_only=True))
+    if rec.get('stuck') is not None:
+        viol.append(V('run-incomplete', 'run-incomplete:outline:%s' % pat, 'after the final play the loop is quiescent with the workchain still %s (called %s)' % (rec['stuck'], got)))
+    elif rec['inconclusive'] is None:
+        if got != exp_trace:
+            kind = 'step-lost' if len(got) < len(exp_trace) else ('step-repeated' if len(got) > len(exp_trace) else 'step-order')
+            viol.append(V(kind, '%s:outline:%s' % (kind, pat), 'outline calls %s, the uninterrupted run makes %s' % (got, exp_trace)))
+        elif fin['state'] != 'finished' or fin['result'] != ['ok', exp_result]:
+            viol.append(V('final-result', 'final-result:outline:%s' % pat, 'workchain ended %s with result %s, expected finished with %r' % (fin['state'], fin['result'], exp_result)))
+    obs = {'outline_runs': 1, 'outline_calls': len(got), 'outline_pause_live': 0, 'outline_play_while_paused': 0, 'step_entries': len(got), 'pause_live': 0,
+           'play_while_paused': 0, 'pause_phase': {}, 'trace_compared': 1, 'pause_returns': {}}
+    for a in rec['acts']:
+        if a['kind'] == 'pause' and a['live_before']:
+            obs['outline_pause_live'] += 1
+            if a['via'].startswith(('step', 'listener')):
+                obs['outline_pause_mid_run'] = obs.get('outline_pause_mid_run', 0) + 1
+        if a['kind'] == 'play' and a['paused_before']:
+            obs['outline_play_while_paused'] += 1
+    res = {'viol': judges._dedupe(viol), 'obs': obs, 'inconclusive': rec['inconclusive'], 'key': [case['name'], case['plan']],
+           'nontrivial': obs['outline_pause_live'] + obs['outline_play_while_paused'] > 0}
+    res['sample'] = {'program': case['name'], 'plan': case['plan'], 'final_state': fin['state'] if fin else None,
+                     'acts': [[a['kind'], a['via'], a['phase'], a['ret']] for a in rec['acts']], 'calls': got}
+    return res
+
+
 def run_case(case):
+    if case.get('outline'):
+        return run_outline_case(case)
     rec = lifecycle.run_case(case)
     viol = judges.judge_c05(rec, check_trace=not case.get('no_trace'))
     obs = {'step_entries': 0, 'pause_live': 0, 'play_while_paused': 0, 'pause_phase': {}, 'trace_compared': 0, 'pause_returns': {}}
